@@ -72,6 +72,12 @@ class Canon:
         if h == "call":
             if t[1] in _PLUMB and len(t[2]) == 1:
                 return self.c(t[2][0], depth + 1)
+            if not _is_std(t[1]) and depth < 12:
+                g = self.ctx.F.by_qname.get(t[1], [])
+                if len(g) == 1 and not g[0].reach and not g[0].in_testonly() and t[1] not in load():
+                    body = Inliner(self.ctx).inline_fn(t[1], list(t[2]))       # a crate-private helper is read through
+                    if body is not None:
+                        return self.c(body, depth + 1)
             if t[1] == "std::option::Option::take" and len(t[2]) == 1:
                 t = ("call", "std::mem::take", t[2])          # the same operation on an Option
             if t[1] in _MAPS and len(t[2]) == 2 and t[2][1][0] == "closure":
@@ -505,6 +511,41 @@ def census_of(ctx, f0):
     return sorted(i for i in items if not i.split(":", 1)[1].startswith(("tracing", "Span::", "Metrics", "Level", "Callsite", "DefaultCallsite", "ValueSet", "FieldSet", "Interest", "Event::", "Identifier", "Metadata", "Kind", "__macro", "Field::")))
 
 
+import re as _re
+_CMP_OK_CALLS = {"Ord::cmp", "PartialOrd::partial_cmp", "PartialEq::eq", "PartialEq::ne", "Option::Some", "Ordering::Equal", "Ordering::Less", "Ordering::Greater",
+                 "Ordering::then", "Ordering::then_with", "Option::map", "intrinsics::discriminant_value"}
+
+
+def _cmp_paths(rows):
+    """for a comparison impl: the field paths of each operand in the order in which they are compared (rows ordered by the length of
+    their condition = position in the chain; within a row by appearance), and the calls it makes"""
+    order = {"1": [], "2": []}
+    calls = set()
+    for label, vals in sorted(rows.items(), key=lambda kv: (len(kv[0]), kv[0])):
+        text = " ".join(sorted(vals)) + " " + label          # the value of a row is what is compared next; its condition repeats earlier fields
+        for m in _re.finditer(r"\bp([12])((?:\.[A-Za-z_0-9]+|\.as [A-Za-z_0-9]+)*)", text):
+            if m.group(2) and m.group(2) not in order[m.group(1)]:
+                order[m.group(1)].append(m.group(2))
+        calls.update(_re.findall(r"([A-Za-z_][A-Za-z_0-9]*::[A-Za-z_][A-Za-z_0-9]*)[({]", text))
+        if _re.search(r"\[|Range|Wrapping|wrapping| as [iu]\d|WithOverflow|Shl|Shr|BitXor|BitAnd|BitOr", text):
+            calls.add("<arithmetic / slicing>")
+    return order, calls
+
+
+def cmp_equivalent(rows, ref_rows, ordered=True):
+    """another way of writing the same structural comparison: the same fields of both operands compared in the same order, and no call,
+    arithmetic or slicing the reference does not have (tuple-of-fields comparison, explicit chain, then_with ...)"""
+    o1, c1 = _cmp_paths(rows)
+    o2, c2 = _cmp_paths(ref_rows)
+    def prefixes_closed(o):
+        # `p1.message.view` after `p1.message` adds nothing: keep maximal-information order of top-level fields
+        return {k: [x for x in v] for k, v in o.items()}
+    if not ordered:
+        o1 = {k: sorted(v) for k, v in o1.items()}
+        o2 = {k: sorted(v) for k, v in o2.items()}
+    return o1 == o2 and o1["1"] == o1["2"] and bool(o1["1"]) and c1 <= (c2 | _CMP_OK_CALLS)
+
+
 def resolve(ctx, q):
     """bodies of a pinned name; `name@T` selects, among several impls with one name (Sub<Duration> / Sub<Utc> for Utc), the one
     whose second parameter's type contains T"""
@@ -625,6 +666,11 @@ def run(ctx, prop):
         if rows in alts:
             ctx.ob(R, key, True, "%s: %s" % (e["why"], "; ".join("%s -> %s" % (k or "always", " | ".join(sorted(v))) for k, v in sorted(rows.items())))[:400], f.loc())
             continue
+        if q.endswith(("std::cmp::Ord>::cmp", "std::cmp::PartialOrd>::partial_cmp", "std::cmp::PartialEq>::eq")) and not last["open"]:
+            if any(cmp_equivalent({k: v for k, v in rows.items() if k != "<effects>"}, a, ordered=not q.endswith("PartialEq>::eq")) for a in alts[:1]):
+                ctx.note("%s %s: written differently from the reference; the same fields of both operands are compared in the same order - accepted" % (R, _short(q)))
+                ctx.ob(R, key, True, "same fields compared in the same order as the reference (%s)" % e["why"], f.loc())
+                continue
         if e.get("closed_world") and rows:
             # a function whose every accepted way of writing it is listed (reference + reviewed alternatives): anything
             # else is reported - its meaning cannot be re-derived from an arbitrary rewrite, and everything that counts
